@@ -1,7 +1,7 @@
 (* C09: the monitor of Run/C09.v accepts every run of the model, and the model's diff with
    itself is empty. *)
 From SC Require Import Lib.Prelude Lib.Int Lib.Host Model.Timelock Model.TimelockGhost Model.TimelockController
-  Proofs.TimelockGhost Proofs.Timelock Proofs.C08Final Proofs.Controller Proofs.C09Final Run.C09.
+  Proofs.TimelockGhost Proofs.Timelock Proofs.C08Final Proofs.Controller Proofs.C09Final Proofs.C09Enum Run.C09.
 
 (* ---------------- reflexivity of the boolean equalities ---------------- *)
 Lemma oz_eqb_refl a : oz_eqb a a = true.
@@ -94,94 +94,17 @@ Proof.
     destruct (N.eqb r r0); reflexivity.
 Qed.
 
-(* ---------------- role enumerations: what grant / revoke do to the member list ---------------- *)
-Lemma held_index_of x l : forall k, match index_of x l k with Some _ => true | None => false end = existsb (N.eqb x) l.
-Proof. induction l as [|y l IH]; intros k; cbn [index_of existsb]; [reflexivity|]. destruct (N.eqb x y); [reflexivity|apply IH]. Qed.
-Lemma holds_mem a x r : holds a x r = existsb (N.eqb x) (mem_list a r).
-Proof. unfold holds, has_role. apply held_index_of. Qed.
-Lemma existsb_app_single l a x : existsb (N.eqb x) (l ++ [a]) = existsb (N.eqb x) l || N.eqb x a.
-Proof. rewrite existsb_app. cbn. rewrite orb_false_r. reflexivity. Qed.
-
-Lemma index_of_spec x l : forall k j, index_of x l k = Some j ->
-  k <= j < k + Z.of_nat (length l) /\ nth (Z.to_nat (j - k)) l 0%N = x.
+(* (what grant / revoke do to the member list: Proofs/C09Enum.v) *)
+Lemma forallb_flat_map {A B} (P : B -> bool) (F : A -> list B) l :
+  forallb P (flat_map F l) = forallb (fun x => forallb P (F x)) l.
+Proof. induction l as [|x l IH]; cbn [flat_map forallb]; [reflexivity|]. rewrite forallb_app, IH. reflexivity. Qed.
+Lemma nodupb_NoDup l : NoDup l -> nodupb l = true.
 Proof.
-  induction l as [|y l IH]; intros k j H; cbn [index_of] in H; [discriminate|].
-  destruct (N.eqb x y) eqn:E.
-  - inversion H; subst. apply N.eqb_eq in E. subst. cbn [length]. rewrite Z.sub_diag. cbn. split; [lia|reflexivity].
-  - destruct (IH _ _ H) as [Hr Hn]. cbn [length]. split; [lia|].
-    replace (Z.to_nat (j - k)) with (S (Z.to_nat (j - (k + 1)))) by lia. exact Hn.
+  induction 1 as [|x l Hx _ IH]; cbn [nodupb]; [reflexivity|]. rewrite IH, andb_true_r. apply negb_true_iff.
+  unfold mem_n. destruct (existsb (N.eqb x) l) eqn:E; [|reflexivity]. exfalso. apply Hx. apply existsb_eqb_In. exact E.
 Qed.
-
-Lemma set_nth_length i v m : length (set_nth i v m) = length m.
-Proof. revert i. induction m as [|y m IH]; intros [|i]; cbn; auto. Qed.
-Lemma set_nth_mem x y v : forall m i, (i < length m)%nat -> nth i m 0%N = x -> y <> x ->
-  existsb (N.eqb y) (set_nth i v m) = existsb (N.eqb y) m || N.eqb y v.
-Proof.
-  induction m as [|z m IH]; intros i Hi Hn Hy; cbn [length] in Hi; [lia|].
-  destruct i as [|i]; cbn [set_nth nth existsb] in *.
-  - subst z. replace (N.eqb y x) with false by (symmetry; apply N.eqb_neq; exact Hy). cbn [orb]. apply orb_comm.
-  - rewrite (IH i) by (auto; lia). rewrite orb_assoc. reflexivity.
-Qed.
-
-Lemma grant_no_auth_members mr a x r a' :
-  grant_no_auth mr a x r = Ok a' ->
-  (holds a x r = true /\ a' = a) \/
-  (holds a x r = false /\ mem_list a' r = mem_list a r ++ [x] /\ (existing a' = existing a \/ existing a' = existing a ++ [r])).
-Proof.
-  unfold grant_no_auth. destruct (holds a x r) eqn:Eh.
-  - intros H. inversion H. left. auto.
-  - right. split; [reflexivity|]. destruct (mem_list a r) as [|y l] eqn:El.
-    + destruct (Z.of_nat (length (existing a)) =? mr); cbn [bind] in H; [discriminate|].
-      inversion H; subst. rewrite mem_list_set_members_eq. cbn [set_members existing]. auto.
-    + cbn [bind] in H. inversion H; subst. rewrite mem_list_set_members_eq. cbn [set_members existing]. auto.
-Qed.
-
-Lemma remove_first_mem r y : forall l, y <> r -> existsb (N.eqb y) (remove_first r l) = existsb (N.eqb y) l.
-Proof.
-  induction l as [|z l IH]; intros Hy; cbn [remove_first existsb]; [reflexivity|].
-  destruct (N.eqb r z) eqn:E.
-  - apply N.eqb_eq in E. subst z. replace (N.eqb y r) with false by (symmetry; apply N.eqb_neq; exact Hy). reflexivity.
-  - cbn [existsb]. rewrite IH by exact Hy. reflexivity.
-Qed.
-
-Lemma swap_remove_spec (l : list addr) (x : addr) (idx : nat) :
-  (idx < length l)%nat -> nth idx l 0%N = x ->
-  let l' := if (Z.of_nat idx =? Z.of_nat (length l) - 1) then removelast l else set_nth idx (last l 0%N) (removelast l) in
-  (forall y, y <> x -> existsb (N.eqb y) l' = existsb (N.eqb y) l) /\
-  Z.of_nat (length l') = Z.of_nat (length l) - 1.
-Proof.
-  intros Hi Hn. assert (Hne : l <> []) by (destruct l; [cbn in Hi; lia|discriminate]).
-  destruct (exists_last Hne) as (m & z & ->). rewrite removelast_last, last_last, app_length in *. cbn [length] in *.
-  destruct (Z.of_nat idx =? Z.of_nat (length m + 1) - 1) eqn:E; cbv zeta.
-  - apply Z.eqb_eq in E. assert (idx = length m) by lia. subst idx.
-    rewrite app_nth2 in Hn by lia. rewrite Nat.sub_diag in Hn. cbn in Hn. subst z. split; [|lia].
-    intros y Hy. rewrite existsb_app_single. replace (N.eqb y x) with false by (symmetry; apply N.eqb_neq; exact Hy).
-    rewrite orb_false_r. reflexivity.
-  - apply Z.eqb_neq in E. assert (idx < length m)%nat by lia. rewrite app_nth1 in Hn by lia. split.
-    + intros y Hy. rewrite existsb_app_single. apply set_nth_mem with (x := x); auto.
-    + rewrite set_nth_length. lia.
-Qed.
-
-Lemma revoke_no_auth_members a x r a' :
-  revoke_no_auth a x r = Ok a' ->
-  holds a x r = true /\
-  (forall y, y <> x -> existsb (N.eqb y) (mem_list a' r) = existsb (N.eqb y) (mem_list a r)) /\
-  Z.of_nat (length (mem_list a' r)) = Z.of_nat (length (mem_list a r)) - 1 /\
-  (existing a' = existing a \/ existing a' = remove_first r (existing a)).
-Proof.
-  unfold revoke_no_auth. destruct (holds a x r) eqn:Eh; [|discriminate]. intros H. split; [reflexivity|].
-  unfold remove_member in H. destruct (mem_list a r) as [|y0 l0] eqn:El; [discriminate|].
-  destruct (has_role a x r) as [idx|] eqn:Ei; [|discriminate].
-  unfold has_role in Ei. rewrite El in Ei.
-  apply index_of_spec in Ei. rewrite Z.sub_0_r in Ei. destruct Ei as [Hr Hn].
-  inversion H; subst a'. rewrite mem_list_set_members_eq. cbn [set_members existing].
-  pose proof (swap_remove_spec (y0 :: l0) x (Z.to_nat idx)) as P.
-  rewrite Z2Nat.id in P by lia. cbv zeta in P.
-  assert (Hlt : (Z.to_nat idx < length (y0 :: l0))%nat) by lia.
-  specialize (P Hlt Hn). destruct P as [P1 P2].
-  split; [exact P1|]. split; [exact P2|].
-  match goal with |- context [if ?b then _ else _] => destruct b end; auto.
-Qed.
+Lemma dedup_addm l : dedup l = fold_left addm l [].
+Proof. reflexivity. Qed.
 
 Section WithHeader.
   Variable h : header.
@@ -221,6 +144,29 @@ Section WithHeader.
   Lemma ops_get_model s i : In i (h_ids h) -> alist_get i (o_ops (observe s)) = Some (view (ctl s) i).
   Proof.
     intros Hi. unfold Run.C09.observe, observe_u; cbn [o_ops]. rewrite alist_get_map, (existsb_in _ _ Hi). reflexivity.
+  Qed.
+
+  (* ---------------- the enumerations ---------------- *)
+  (* every enumerated account lies inside the observed universe (constructor arguments and calls are well-formed) *)
+  Definition univ_inv (a : ac) : Prop := forall r y, In y (mem_list a r) -> in_upto (h_naddr h) y = true.
+
+  Lemma mem_get_model s r :
+    alist_get r (o_mem (observe s)) = if existsb (N.eqb r) (upto (h_nroles h)) then Some (mem_list (acs s) r) else None.
+  Proof. unfold Run.C09.observe, observe_u; cbn [o_mem]. apply alist_get_map. Qed.
+
+  Lemma enum_ok_model s : nodup_inv (acs s) -> univ_inv (acs s) -> enum_ok (h_naddr h) (observe s) = true.
+  Proof.
+    intros Hn Hu. unfold enum_ok. apply andb_true_iff. split.
+    - assert (E : o_mem (observe s) = map (fun r => (r, mem_list (acs s) r)) (upto (h_nroles h))) by reflexivity.
+      rewrite E, forallb_map. apply forallb_forall. intros r Hr. cbn [fst snd].
+      rewrite (nodupb_NoDup _ (Hn r)). cbn [andb].
+      replace (forallb (in_upto (h_naddr h)) (mem_list (acs s) r)) with true
+        by (symmetry; apply forallb_forall; intros y Hy; exact (Hu r y Hy)).
+      cbn [andb]. unfold ob_count, Run.C09.observe, observe_u; cbn [o_cnt]. rewrite alist_get_map, (existsb_in _ _ Hr). apply Z.eqb_refl.
+    - assert (E : o_has (observe s) = flat_map (fun r => map (fun a => (a, r, has_role (acs s) a r)) (upto (h_naddr h))) (upto (h_nroles h)))
+        by reflexivity.
+      rewrite E, forallb_flat_map. apply forallb_forall. intros r Hr. rewrite forallb_map. apply forallb_forall. intros a _. cbn [fst snd].
+      rewrite mem_get_model, (existsb_in _ _ Hr). unfold has_role. apply oz_eqb_refl.
   Qed.
 
   (* ---------------- coherence ---------------- *)
@@ -571,12 +517,12 @@ Section WithHeader.
   Proof. intros H. apply radmin_same_model. rewrite H. reflexivity. Qed.
 
   Lemma effects_ok_model s c s' r pairs s1 g :
-    wf c = true ->
+    wf c = true -> nodup_inv (acs s) ->
     ginv (ctl s) g ->
     consumed hash cf (is_direct c) s (a_exec (authz_of c)) pairs s1 -> own_effect hash cf c s s1 s' r ->
     effects_ok c (observe s) (observe s') = true.
   Proof.
-    intros Hwf Hg Hc Ho. unfold call_wf in Hwf. apply andb_true_iff in Hwf. destruct Hwf as [_ Hwf].
+    intros Hwf Hnd Hg Hc Ho. unfold call_wf in Hwf. apply andb_true_iff in Hwf. destruct Hwf as [_ Hwf].
     destruct (ledger_transition s c s' r pairs s1 g 0%N Hg Hc Ho) as (_ & _ & Hnow).
     pose proof Hc as (Hacs1 & Hcr1 & _ & _). destruct (consumed_marks _ _ _ _ _ Hc) as (_ & Hmin1 & _ & _).
     unfold effects_ok.
@@ -629,22 +575,26 @@ Section WithHeader.
       + apply (runs_model _ _ (fun _ => 0)). apply crun_count_ext. exact Hcr1.
     - (* revoke *)
       destruct Ho as (_ & a' & Hgr & -> & _). pose proof (revoke_changes s s1 a' a ro Hacs1 Hgr) as RC.
+      pose proof (revoke_removes _ _ _ _ Hgr Hnd) as RR.
       apply revoke_no_auth_frame in Hgr. destruct Hgr as (G1 & G2 & G3 & G4 & G5).
       apply andb_true_iff in Hwf. destruct Hwf as [Hwf Hk]. apply andb_true_iff in Hwf. destruct Hwf as [Hwa Hwr].
       cbn [with_acs ctl acs] in *. rewrite Hnow, Z.eqb_refl, Hmin1, oz_eqb_refl, G1, on_eqb_refl. cbn [andb].
-      apply andb_true_iff; split; [apply andb_true_iff; split; [apply andb_true_iff; split|]|].
+      apply andb_true_iff; split; [apply andb_true_iff; split; [apply andb_true_iff; split; [apply andb_true_iff; split|]|]|].
       + exact RC.
       + apply ob_has_holds; [exact Hwa|exact Hwr|exact G5].
+      + rewrite (ob_has_eq (with_acs s1 a') a ro Hwa Hwr). cbn [with_acs acs]. rewrite RR. reflexivity.
       + apply radmin_same_model. cbn [acs]. exact G3.
       + apply (runs_model _ _ (fun _ => 0)). apply crun_count_ext. exact Hcr1.
     - (* renounce role *)
       destruct Ho as (a' & Hgr & -> & _). pose proof (revoke_changes s s1 a' k ro Hacs1 Hgr) as RC.
+      pose proof (revoke_removes _ _ _ _ Hgr Hnd) as RR.
       apply revoke_no_auth_frame in Hgr. destruct Hgr as (G1 & G2 & G3 & G4 & G5).
       apply andb_true_iff in Hwf. destruct Hwf as [Hwr Hwk].
       cbn [with_acs ctl acs] in *. rewrite Hnow, Z.eqb_refl, Hmin1, oz_eqb_refl, G1, on_eqb_refl. cbn [andb].
-      apply andb_true_iff; split; [apply andb_true_iff; split; [apply andb_true_iff; split|]|].
+      apply andb_true_iff; split; [apply andb_true_iff; split; [apply andb_true_iff; split; [apply andb_true_iff; split|]|]|].
       + exact RC.
       + apply ob_has_holds; [exact Hwk|exact Hwr|exact G5].
+      + rewrite (ob_has_eq (with_acs s1 a') k ro Hwk Hwr). cbn [with_acs acs]. rewrite RR. reflexivity.
       + apply radmin_same_model. cbn [acs]. exact G3.
       + apply (runs_model _ _ (fun _ => 0)). apply crun_count_ext. exact Hcr1.
     - (* set_role_admin *)
@@ -791,26 +741,40 @@ Section WithHeader.
     - destruct Ho as (_ & _ & -> & _). apply K. cbn. rewrite Ha. reflexivity.
   Qed.
 
-  Lemma obs_step_ok_fail s c g :
-    wf c = true -> ginv (ctl s) g -> OSO (pending (acs s)) (observe s) (c, (Fail : outcome), observe s) = Some [].
+  Lemma univ_step s c s' r : wf c = true -> step_ok s c = Ok (s', r) -> univ_inv (acs s) -> univ_inv (acs s').
   Proof.
-    intros Hwf Hg. unfold obs_step_ok. rewrite (obs_coherent_model s g Hg), obs_shape_model, Hwf. cbn [negb andb].
+    intros Hwf H Hu. unfold call_wf in Hwf. apply andb_true_iff in Hwf. destruct Hwf as [_ Hwf].
+    apply (acs_step hash aid cf) in H.
+    destruct c as [o d p au|o x tgt au|j k au|d au|a ro k au|a ro k au|ro k au|ro ar au|new lu au|au|au|metas ctxs xa|n];
+      try (intros r0 y Hy; rewrite (mem_list_members _ _ r0 H) in Hy; exact (Hu r0 y Hy)).
+    - intros r0 y Hy. destruct (grant_members_incl _ _ _ _ _ _ _ H Hy) as [Hy'| ->]; [exact (Hu r0 y Hy')|].
+      apply andb_true_iff in Hwf. destruct Hwf as [Hwf _]. apply andb_true_iff in Hwf. apply Hwf.
+    - intros r0 y Hy. exact (Hu r0 y (revoke_members_incl _ _ _ _ _ _ H Hy)).
+    - intros r0 y Hy. exact (Hu r0 y (revoke_members_incl _ _ _ _ _ _ H Hy)).
+  Qed.
+
+  Lemma obs_step_ok_fail s c g :
+    wf c = true -> nodup_inv (acs s) -> univ_inv (acs s) ->
+    ginv (ctl s) g -> OSO (pending (acs s)) (observe s) (c, (Fail : outcome), observe s) = Some [].
+  Proof.
+    intros Hwf Hnd Hun Hg. unfold obs_step_ok. rewrite (obs_coherent_model s g Hg), obs_shape_model, (enum_ok_model s Hnd Hun), Hwf. cbn [negb andb].
     rewrite obs_eqb_refl. reflexivity.
   Qed.
 
   Lemma obs_step_ok_ok s c s' r g :
-    wf c = true -> radmin_wf (acs s) ->
+    wf c = true -> radmin_wf (acs s) -> nodup_inv (acs s) -> univ_inv (acs s) ->
     ginv (ctl s) g -> step_ok s c = Ok (s', r) ->
     exists pairs g',
       OSO (pending (acs s)) (observe s) (c, (Ok r : outcome), observe s') = Some (tl_calls cf c pairs) /\
       gfeed hash g (now (ctl s)) (min_delay (ctl s)) (tl_calls cf c pairs) = Some g' /\ ginv (ctl s') g'.
   Proof.
-    intros Hwf Hra Hg H.
+    intros Hwf Hra Hnd Hun Hg H.
     destruct (step_spec hash aid cf _ _ _ _ H) as (pairs & s1 & Hp & Hc & Ho).
     destruct (cstep_ghost hash aid cf _ _ _ _ _ Hg H) as (pairs' & g' & Hp' & Hf & Hg').
     rewrite Hp in Hp'. injection Hp' as <-.
     exists pairs, g'. split; [|split; assumption].
-    unfold obs_step_ok. rewrite (obs_coherent_model s' g' Hg'), obs_shape_model, Hwf. cbn [negb andb].
+    unfold obs_step_ok. rewrite (obs_coherent_model s' g' Hg'), obs_shape_model,
+      (enum_ok_model s' (nodup_step_ok hash aid cf _ _ _ _ H Hnd) (univ_step _ _ _ _ Hwf H Hun)), Hwf. cbn [negb andb].
     change (o_admin (observe s)) with (admin (acs s)). change (o_admin (observe s')) with (admin (acs s')).
     rewrite ob_count_executor, Hp.
     pose proof Hc as (_ & _ & Hgood & _).
@@ -821,7 +785,7 @@ Section WithHeader.
     replace (forallb _ (o_ops (observe s'))) with true.
     2:{ symmetry. unfold Run.C09.observe at 2, observe_u; cbn [o_ops]. rewrite forallb_map. apply forallb_forall.
         intros i Hi. apply (op_step_ok_model s c s' r pairs s1 g i Hg Hc Ho Hi). }
-    rewrite (effects_ok_model s c s' r pairs s1 g Hwf Hg Hc Ho). cbn [andb].
+    rewrite (effects_ok_model s c s' r pairs s1 g Hwf Hnd Hg Hc Ho). cbn [andb].
     replace (match c with
              | AcceptAdmin _ => match tget (o_now (observe s)) (pending (acs s)) with
                                 | Some pa => on_eqb (admin (acs s')) (Some pa) | None => false end
@@ -858,18 +822,19 @@ Section WithHeader.
   Proof. reflexivity. Qed.
 
   Lemma mon_from_model cs : forall s g k,
-    forallb wf cs = true -> radmin_wf (acs s) -> ginv (ctl s) g ->
+    forallb wf cs = true -> radmin_wf (acs s) -> nodup_inv (acs s) -> univ_inv (acs s) -> ginv (ctl s) g ->
     MF (MS (observe s) g (pending (acs s))) (model_events h s cs) k = 0%N.
   Proof.
-    induction cs as [|c cs IH]; intros s g k Hall Hra Hg; cbn [model_events mon_from]; [reflexivity|].
+    induction cs as [|c cs IH]; intros s g k Hall Hra Hnd Hun Hg; cbn [model_events mon_from]; [reflexivity|].
     cbn [forallb] in Hall. apply andb_true_iff in Hall. destruct Hall as [Hwf Hall].
     fold hash aid cf. rewrite step_unfold.
     destruct (step_ok s c) as [[s' r]|] eqn:E; cbn [mon_from]; unfold mon_step; cbn [m_prev m_ghost m_pend snd fst].
-    - destruct (obs_step_ok_ok s c s' r g Hwf Hra Hg E) as (pairs & g' & Hobs & Hf & Hg').
+    - destruct (obs_step_ok_ok s c s' r g Hwf Hra Hnd Hun Hg E) as (pairs & g' & Hobs & Hf & Hg').
       rewrite Hobs. change (o_now (observe s)) with (now (ctl s)). change (o_min (observe s)) with (min_delay (ctl s)).
       rewrite Hf. cbn [is_ok]. rewrite <- (pending_after_model s c s' r E).
-      apply IH; [exact Hall|exact (radmin_wf_step s c s' r Hwf E Hra)|exact Hg'].
-    - rewrite (obs_step_ok_fail s c g Hwf Hg). cbn [gfeed is_ok]. apply IH; assumption.
+      apply IH; [exact Hall|exact (radmin_wf_step s c s' r Hwf E Hra)|exact (nodup_step_ok hash aid cf _ _ _ _ E Hnd)
+                |exact (univ_step _ _ _ _ Hwf E Hun)|exact Hg'].
+    - rewrite (obs_step_ok_fail s c g Hwf Hnd Hun Hg). cbn [gfeed is_ok]. apply IH; assumption.
   Qed.
 
   Lemma diff_from_model cs : forall s k, diff_from h s (model_events h s cs) k = 0%N.
@@ -916,17 +881,36 @@ Proof.
   rewrite B1, B2, B3, A1, A2, A3. cbn. repeat split; reflexivity.
 Qed.
 
+Lemma construct_univ h cf n0 md props execs adm s0 :
+  forallb (in_upto (h_naddr h)) (props ++ execs) = true ->
+  construct cf n0 md props execs adm = Ok s0 -> univ_inv h (acs s0).
+Proof.
+  intros Hu H. rewrite forallb_app in Hu. apply andb_true_iff in Hu. destruct Hu as [Hp He].
+  destruct (construct_acs _ _ _ _ _ _ _ H) as (a1 & E1 & E2).
+  assert (G : forall l, forallb (in_upto (h_naddr h)) l = true ->
+              forall a x r a', In x l -> grant_no_auth (max_roles cf) a x r = Ok a' -> univ_inv h a -> univ_inv h a').
+  { intros l Hl a x r a' Hx Hg Ha r0 y Hy. destruct (grant_members_incl _ _ _ _ _ _ _ Hg Hy) as [Hy'| ->]; [exact (Ha r0 y Hy')|].
+    rewrite forallb_forall in Hl. exact (Hl x Hx). }
+  apply (grant_all_preserves cf (univ_inv h) execs (G execs He) _ _ _ E2).
+  apply (grant_all_preserves cf (univ_inv h) props (G props Hp) _ _ _ E1).
+  intros r y Hy. unfold mem_list in Hy. cbn in Hy. destruct Hy.
+Qed.
+
 Theorem check_accepts_model : forall cf n0 md props execs adm ids naddr nroles tags tbl avs s0 cs,
+  forallb (in_upto naddr) (props ++ execs) = true ->
   2 <= n0 <= MAXU32 -> tbl_ok tbl = true -> avs_ok avs = true -> tbl_in ids tbl = true -> (3 <=? nroles)%N = true ->
   forallb (call_wf naddr nroles avs) cs = true ->
   construct cf n0 md props execs adm = Ok s0 ->
   check (model_trace cf n0 md props execs adm ids naddr nroles tags tbl avs s0 cs) = (0%N, 0%N, 0%N).
 Proof.
-  intros cf n0 md props execs adm ids naddr nroles tags tbl avs s0 cs Hn Htbl Havs Hin Hroles Hwf Hc.
+  intros cf n0 md props execs adm ids naddr nroles tags tbl avs s0 cs Huniv Hn Htbl Havs Hin Hroles Hwf Hc.
   unfold check, model_trace.
   set (h := model_header cf n0 md props execs adm ids naddr nroles tags tbl avs s0).
   assert (Hg0 : ginv (ctl s0) []) by (apply (construct_ginv cf n0 md props execs adm); assumption).
   destruct (construct_frame _ _ _ _ _ _ _ Hc) as (F1 & F2 & F3 & F4 & F5 & F6 & F7).
+  assert (ND : nodup_inv (acs s0)) by exact (construct_nodup _ _ _ _ _ _ _ Hc).
+  assert (UN : univ_inv (model_header cf n0 md props execs adm ids naddr nroles tags tbl avs s0) (acs s0))
+    by (apply (construct_univ _ cf n0 md props execs adm); [exact Huniv|exact Hc]).
   assert (D : diff (h, model_events h s0 cs) = 0%N).
   { unfold diff, diff_events, init_state. cbn [fst snd]. subst h. cbn [model_header h_cfg h_now h_min h_props h_execs h_admin h_unset h_done h_obs0].
     rewrite Hc, !Z.eqb_refl. cbn [andb].
@@ -935,11 +919,22 @@ Proof.
   assert (M : monitor (h, model_events h s0 cs) = 0%N).
   { unfold monitor. subst h. cbn [model_header h_tbl h_avs h_nroles h_ids]. rewrite Htbl, Havs, Hin, Hroles.
     assert (O : obs0_ok (model_header cf n0 md props execs adm ids naddr nroles tags tbl avs s0) = true).
-    { unfold obs0_ok. cbn [model_header h_obs0 h_now h_ids h_naddr h_nroles h_tags h_min h_admin h_cfg].
+    { unfold obs0_ok.
+      assert (EN : enum_ok (h_naddr (model_header cf n0 md props execs adm ids naddr nroles tags tbl avs s0))
+                           (h_obs0 (model_header cf n0 md props execs adm ids naddr nroles tags tbl avs s0)) = true)
+        by exact (enum_ok_model _ s0 ND UN).
+      assert (M0 : mem0_ok (model_header cf n0 md props execs adm ids naddr nroles tags tbl avs s0) = true).
+      { unfold mem0_ok. cbn [model_header h_obs0 h_props h_execs]. unfold observe_u; cbn [o_mem]. rewrite forallb_map.
+        apply forallb_forall. intros r _. cbn [fst snd].
+        rewrite (construct_members _ _ _ _ _ _ _ Hc r), !dedup_addm. apply list_eqb_refl, N.eqb_refl. }
+      rewrite EN, M0.
+      cbn [model_header h_obs0 h_now h_ids h_naddr h_nroles h_tags h_min h_admin h_cfg h_props h_execs].
       change (observe_u ids naddr nroles tags s0) with (observe (model_header cf n0 md props execs adm ids naddr nroles tags tbl avs s0) s0).
       rewrite (obs_coherent_model _ s0 [] Hg0).
       pose proof (obs_shape_model (model_header cf n0 md props execs adm ids naddr nroles tags tbl avs s0) s0) as SH.
       cbn [model_header h_ids h_naddr h_nroles h_tags] in SH. rewrite SH.
+      match goal with |- context [forallb (in_upto naddr) ?l] =>
+        replace (forallb (in_upto naddr) l) with true by (symmetry; exact Huniv) end.
       unfold observe, observe_u; cbn [o_now o_min o_admin o_radmin o_ops o_runs model_header h_ids h_tags h_naddr h_nroles].
       rewrite F1, F4, F5, Z.eqb_refl, oz_eqb_refl, on_eqb_refl. cbn [andb].
       rewrite !forallb_map. apply andb_true_iff. split; [apply andb_true_iff; split|]; apply forallb_forall; intros x _; cbn [snd].
@@ -949,7 +944,8 @@ Proof.
     rewrite O. cbn [andb model_header h_cfg h_obs0 h_ids h_naddr h_nroles h_tags h_avs].
     change (observe_u ids naddr nroles tags s0) with (observe (model_header cf n0 md props execs adm ids naddr nroles tags tbl avs s0) s0).
     rewrite <- F2.
-    apply (mon_from_model (model_header cf n0 md props execs adm ids naddr nroles tags tbl avs s0) Hroles cs s0 [] 0%N Hwf); [|exact Hg0].
+    apply (mon_from_model (model_header cf n0 md props execs adm ids naddr nroles tags tbl avs s0) Hroles cs s0 [] 0%N Hwf);
+      [|exact ND|exact UN|exact Hg0].
     intros r ar. unfold role_admin. rewrite F3. discriminate. }
   rewrite D, M. reflexivity.
 Qed.
